@@ -277,3 +277,18 @@ class TermKindsAccepted(_EnumOb):
 
     def claims(self, w, S, P, part=None):
         return [('accepted[%s]' % k, flag(w, got == 'ok')) for k, got in S['res'].items()]
+
+
+class TvdMeanNotImplemented(_EnumOb):
+    """averaging.tvdMean is documented as not implemented: it must raise instead of returning numbers"""
+    name = 'tvdMean/raises_not_implemented'
+    props = ('C16', 'C11')
+    grids = ('Grid1D', 'Grid2D', 'Grid3D')
+
+    def setup(self, w):
+        phi, _ = make_cellvar(w, 'phi0')
+        u = w.facevar('u')
+        return dict(got=outcome(lambda: avg.tvdMean(phi, u, (lambda r: r)))[0])
+
+    def claims(self, w, S, P, part=None):
+        return [('raises', flag(w, S['got'] != 'ok'))]
